@@ -1067,7 +1067,7 @@ impl FragLexer {{
 # function::get_value(): string arms (C16)
 # --------------------------------------------------------------------------------------------------
 SCALAR_ARMS = ['Substring', 'Length', 'Coalesce', 'Concat', 'ConcatWs', 'Replace', 'Trim', 'LTrim', 'RTrim',
-               'Lower', 'Upper', 'InitCap', 'Abs', 'Least', 'Greatest', 'Sqrt']
+               'Lower', 'Upper', 'InitCap', 'Abs', 'Least', 'Greatest', 'Sqrt', 'Year', 'Month', 'Day', 'DayOfWeek']
 
 
 def unit_scalar(inj, scratch):
@@ -1319,25 +1319,54 @@ def unit_dateprecision(inj, scratch):
     it = s.fn('parse_datetime')
     span = s.body_span(it)
     m0 = s.find_one(r'let\s+day\s*:\s*u32\s*=[^;]*;', span, what='parse_datetime: let day: u32 = ..;')
-    m2 = s.find_one(r'match\s+Local\.with_ymd_and_hms\(', span, what='parse_datetime: match Local.with_ymd_and_hms(')
-    if not m0.end() < m2.start():
+    # the time-of-day block ends with the range check `if hour_start > 23 .. { return Err(..) }`; the calendar part follows it
+    arm = s.arm(r'Some\(cap\)', span, what='parse_datetime: arm Some(cap)')
+    rc = s.block_after(r'if\s+hour_start\s*>\s*23', (arm[1], arm[2]), what='parse_datetime: range check `if hour_start > 23 ..`')
+    tod_end = rc[2] + 1
+    if not m0.end() < rc[0]:
         raise AnchorLost('parse_datetime: time-of-day block is not in front of the calendar conversion')
-
-    class _M:
-        def start(self_inner):
-            return m0.end()
-    m1 = _M()
-    t = dedent(s.text[m1.start():m2.start()].strip())
-    if re.search(r'\b(year|month|day|Local|date)\b', s.mask[m1.start():m2.start()]):
+    t = dedent(s.text[m0.end():tod_end].strip())
+    if re.search(r'\b(year|month|day|Local|date)\b', s.mask[m0.end():tod_end]):
         raise AnchorLost('parse_datetime: time-of-day block mentions the calendar date')
     # which variables feed start / finish: with_hour(hour_start) .. with_second(sec_finish)
-    tail = re.sub(r'\s+', '', s.mask[m2.start():it['close']])
+    tail = re.sub(r'\s+', '', s.mask[tod_end:arm[2]])
     uses = re.findall(r'\.with_(hour|minute|second)\((\w+)\)', tail)
     expect = [('hour', 'hour_start'), ('minute', 'min_start'), ('second', 'sec_start'), ('hour', 'hour_finish'), ('minute', 'min_finish'), ('second', 'sec_finish')]
     if uses[:6] != expect:
         raise AnchorLost(f'parse_datetime: start / finish are not built from (hour,min,sec)_start / _finish in that order: {uses[:6]}')
+    # ---- calendar fragment: from the end of the range check `if hour_start > 23 .. {{ return Err(..) }}` to the end of the `Some(cap) => {{..}}` arm
+    cal = dedent(s.text[rc[2] + 1:arm[2] - 1].strip('\n'))
+    if not cal.strip():
+        raise AnchorLost('parse_datetime: nothing follows the time-of-day range check')
+    cal_text = f'''
+// ---- shim chrono for the calendar fragment: a date exists iff it is a calendar date (proleptic Gregorian); local-time gaps are not modelled ----
+#[derive(Clone, Copy, PartialEq, Debug)] pub struct DT {{ pub y: i32, pub mo: u32, pub d: u32, pub h: u32, pub mi: u32, pub s: u32 }}
+pub fn leap(y: i32) -> bool {{ (y % 4 == 0 && y % 100 != 0) || y % 400 == 0 }}
+pub fn dim(y: i32, m: u32) -> u32 {{ match m {{ 1 | 3 | 5 | 7 | 8 | 10 | 12 => 31, 4 | 6 | 9 | 11 => 30, 2 => if leap(y) {{ 29 }} else {{ 28 }}, _ => 0 }} }}
+pub fn valid_date(y: i32, m: u32, d: u32) -> bool {{ d >= 1 && d <= dim(y, m) }}
+pub enum LocalResult<T> {{ None, Single(T), Ambiguous(T, T) }}
+pub struct Local;
+impl Local {{ pub fn with_ymd_and_hms(&self, y: i32, mo: u32, d: u32, h: u32, mi: u32, s: u32) -> LocalResult<DT> {{
+    if valid_date(y, mo, d) && h < 24 && mi < 60 && s < 60 {{ LocalResult::Single(DT {{ y, mo, d, h, mi, s }}) }} else {{ LocalResult::None }} }} }}
+pub struct NaiveDate;
+#[derive(Clone, Copy)] pub struct ND {{ pub y: i32, pub mo: u32, pub d: u32 }}
+impl NaiveDate {{ pub fn from_ymd_opt(y: i32, mo: u32, d: u32) -> Option<ND> {{ if valid_date(y, mo, d) {{ Some(ND {{ y, mo, d }}) }} else {{ None }} }} }}
+impl ND {{ pub fn and_hms_opt(&self, h: u32, mi: u32, s: u32) -> Option<DT> {{ if h < 24 && mi < 60 && s < 60 {{ Some(DT {{ y: self.y, mo: self.mo, d: self.d, h, mi, s }}) }} else {{ None }} }} }}
+impl DT {{
+    pub fn naive_local(&self) -> DT {{ *self }}
+    pub fn with_hour(&self, h: u32) -> Option<DT> {{ if h < 24 {{ Some(DT {{ h, ..*self }}) }} else {{ None }} }}
+    pub fn with_minute(&self, mi: u32) -> Option<DT> {{ if mi < 60 {{ Some(DT {{ mi, ..*self }}) }} else {{ None }} }}
+    pub fn with_second(&self, s: u32) -> Option<DT> {{ if s < 60 {{ Some(DT {{ s, ..*self }}) }} else {{ None }} }}
+}}
+// ---- verbatim: parse_datetime, arm Some(cap), everything after the time-of-day range check ----
+#[allow(unreachable_code)]
+pub fn frag_calendar(year: i32, month: u32, day: u32, hour_start: u32, min_start: u32, sec_start: u32, hour_finish: u32, min_finish: u32, sec_finish: u32, s: &str) -> Result<(DT, DT), String> {{
+    {cal}
+}}
+'''
     text = f'''pub mod dateprecision {{
 use super::*;
+{cal_text}
 // shims for the regex captures: a capture group is either absent or the number it spells
 #[derive(Clone, Copy)] pub struct SVal(pub u32);
 #[derive(Clone, Copy)] pub struct SStr(pub u32);
@@ -1353,11 +1382,14 @@ pub fn frag_time_of_day(cap: &SCap, s: &str) -> Result<(u32, u32, u32, u32, u32,
 }}
 '''
     inj.new_file(FRAG_FILE, text)
-    r, d = frag_record('frag_time_of_day', 'src/util/datetime.rs', 'fn parse_datetime / all statements between `let day: u32 = ..;` and `match Local.with_ymd_and_hms(..)` (verbatim); the use of the six variables in with_hour/with_minute/with_second is checked by shape',
+    r, d = frag_record('frag_time_of_day', 'src/util/datetime.rs', 'fn parse_datetime / all statements from `let day: u32 = ..;` (excluded) to the range check `if hour_start > 23 ..` (included), verbatim; the use of the six variables in with_hour/with_minute/with_second is checked by shape',
                        t, t, ['regex Captures -> shim whose groups 6,7,8 are absent or spell a number (str::parse on them succeeds: the regex only captures digits)'],
                        'DATE_REGEX matching, year/month/day, chrono calendar conversion, today/yesterday/offset literals')
-    return dict(functions=[r], dropped=[d],
-                assumptions=['chrono: with_hour(h)/with_minute(m)/with_second(s) return Some exactly for h < 24, m < 60, s < 60', 'DATE_REGEX groups 6-8 capture 1-2 digits, so parsing them as u32 cannot fail'])
+    r2, d2 = frag_record('frag_calendar', 'src/util/datetime.rs', 'fn parse_datetime / arm `Some(cap) => {..}`: everything after the range check `if hour_start > 23 .. { return Err(..) }` (verbatim)',
+                         cal, cal, ['chrono Local / LocalResult / NaiveDate / NaiveDateTime -> shim calendar (a date exists iff it is a Gregorian calendar date)'], 'chrono itself; local-time gaps (DST)')
+    return dict(functions=[r, r2], dropped=[d, d2],
+                assumptions=['chrono: with_hour(h)/with_minute(m)/with_second(s) return Some exactly for h < 24, m < 60, s < 60', 'DATE_REGEX groups 6-8 capture 1-2 digits, so parsing them as u32 cannot fail',
+                             'chrono: Local.with_ymd_and_hms / NaiveDate::from_ymd_opt succeed exactly for Gregorian calendar dates (shim calendar); local midnight always exists (DST gaps not modelled)'])
 
 
 # --------------------------------------------------------------------------------------------------
@@ -1527,6 +1559,128 @@ impl Searcher {{
 # --------------------------------------------------------------------------------------------------
 # check_file() and the ordered-buffer output loop of list_search_results(): verbatim on a shim world
 # --------------------------------------------------------------------------------------------------
+def unit_rowprologue(inj, scratch):
+    """check_file: the statements from the start of the body up to and including `self.found += 1;` (verbatim) on a shim world:
+    the WHERE filter decides first, a rejected entry is neither counted nor turned into a row."""
+    frag_begin(inj)
+    s = src('src/searcher.rs', scratch)
+    it = s.fn('check_file', impl='Searcher')
+    m = s.find_one(r'self\.found\s*\+=\s*1\s*;', s.body_span(it), what='check_file: self.found += 1;')
+    body = dedent(s.text[it['open'] + 1:m.end()].strip('\n'))
+    text = ("""pub mod rowprologue {
+pub struct DirEntry;
+pub struct FileInfo;
+pub struct Expr { pub id: u8 }
+pub struct Fms { pub clears: u32 }
+impl Fms { pub fn clear(&mut self) { self.clears += 1; } }
+pub struct Query { pub expr: Option<Expr> }
+pub struct Searcher { pub fms: Fms, pub query: &'static Query, pub found: u32, pub verdict: bool, pub conforms_calls: u32, pub asked_id: u8 }
+pub mod io { pub type Result<T> = core::result::Result<T, ()>; }
+impl Searcher {
+    pub fn conforms(&mut self, _entry: &DirEntry, _file_info: &Option<FileInfo>, expr: &Expr) -> bool { self.conforms_calls += 1; self.asked_id = expr.id; self.verdict }
+    // ---- verbatim: check_file from the start of its body up to and including `self.found += 1;` ----
+    pub fn frag_check_file_prologue(&mut self, entry: &DirEntry, file_info: &Option<FileInfo>) -> io::Result<bool> {
+""" + body + """
+        Err(())   // sentinel: control reaches the construction of the row
+    }
+}
+fn world(has_where: bool, verdict: bool, found: u32) -> Searcher {
+    let q: &'static Query = Box::leak(Box::new(Query { expr: if has_where { Some(Expr { id: 7 }) } else { None } }));
+    Searcher { fms: Fms { clears: 0 }, query: q, found, verdict, conforms_calls: 0, asked_id: 0 }
+}
+// C06 / C07: an entry is counted (found) and becomes a row exactly when there is no WHERE or the WHERE condition holds for it;
+// the filter is evaluated once, before anything is counted or buffered
+#[kani::proof]
+fn c06_found_accounting() {
+    let has_where: bool = kani::any();
+    let verdict: bool = kani::any();
+    let found: u32 = kani::any();
+    kani::assume(found < u32::MAX);
+    kani::cover!(has_where && !verdict);
+    kani::cover!(has_where && verdict);
+    kani::cover!(!has_where);
+    let mut w = world(has_where, verdict, found);
+    let r = w.frag_check_file_prologue(&DirEntry, &None);
+    if has_where && !verdict {
+        assert!(r == Ok(true), "OBL C06.found.accounting: a rejected entry ends check_file (search goes on)");
+        assert!(w.found == found, "OBL C06.found.accounting: a rejected entry is not counted");
+    } else {
+        assert!(r == Err(()), "OBL C06.found.accounting: an accepted entry goes on to become a row");
+        assert!(w.found == found + 1, "OBL C06.found.accounting: an accepted entry is counted exactly once");
+    }
+    assert!(w.conforms_calls == (has_where as u32), "OBL C06.found.accounting: the WHERE condition is evaluated once (never without WHERE)");
+    assert!(!has_where || w.asked_id == 7, "OBL C06.found.accounting: it is the query's WHERE expression that is evaluated");
+}
+#[kani::proof]
+fn canary_rowprologue_must_fail() {
+    let mut w = world(true, false, 3);
+    let _ = w.frag_check_file_prologue(&DirEntry, &None);
+    assert!(w.found == 4, "CANARY must fail");
+}
+}
+""")
+    inj.new_file(FRAG_FILE, text)
+    r, d = frag_record('rowprologue::Searcher::frag_check_file_prologue', 'src/searcher.rs', 'fn check_file / from the start of the body up to and including `self.found += 1;` (verbatim, as a method of a shim Searcher)',
+                       body, body, ['Searcher / Query / Expr / fms -> shim types; conforms -> recording stand-in with a symbolic verdict'], 'conforms itself (C02 / C03), the construction and output of the row')
+    return dict(functions=[r], dropped=[d], assumptions=['found < u32::MAX (machine arithmetic on the row counter)'])
+
+
+def unit_datelike(inj, scratch):
+    """lexer::looks_like_date: whole body verbatim; the regex and its captures are shims (group 1 = four digits, group 2 = two digits or absent)."""
+    frag_begin(inj)
+    s = src('src/lexer.rs', scratch)
+    it = s.fn('looks_like_date')
+    sig = re.sub(r'\s+', ' ', s.text[it['sig_start']:it['open']]).strip()
+    if sig != 'fn looks_like_date(s: &str) -> bool':
+        raise AnchorLost(f'looks_like_date: signature changed: {sig!r}')
+    body = dedent(s.text[it['open']:it['end']])
+    text = ("""pub mod datelike {
+// ---- shim regex world: captures of DATE_ALIKE_REGEX `(\\d{4})-?(\\d{2})?` ----
+#[derive(Clone, Copy)] pub struct SStr(pub i32);
+pub trait FromNum { fn of(n: i32) -> Self; }
+impl FromNum for i32 { fn of(n: i32) -> i32 { n } }
+impl FromNum for u32 { fn of(n: i32) -> u32 { n as u32 } }
+impl FromNum for i64 { fn of(n: i32) -> i64 { n as i64 } }
+impl SStr { pub fn parse<T: FromNum>(&self) -> Result<T, ()> { Ok(T::of(self.0)) } }
+#[derive(Clone, Copy)] pub struct SMatch(pub SStr);
+impl SMatch { pub fn as_str(&self) -> &SStr { &self.0 } }
+pub struct SCap { pub g: [Option<SStr>; 3] }
+impl core::ops::Index<usize> for SCap { type Output = SStr; fn index(&self, i: usize) -> &SStr { self.g[i].as_ref().unwrap() } }
+impl SCap { pub fn get(&self, i: usize) -> Option<SMatch> { if i < 3 { self.g[i].map(SMatch) } else { None } } }
+pub struct SRegex;
+pub static mut MATCHES: bool = false;
+pub static mut YEAR: i32 = 0;
+pub static mut MONTH: Option<i32> = None;
+impl SRegex { pub fn captures(&self, _s: &str) -> Option<SCap> { unsafe { if MATCHES { Some(SCap { g: [Some(SStr(0)), Some(SStr(YEAR)), MONTH.map(SStr)] }) } else { None } } } }
+pub static DATE_ALIKE_REGEX: SRegex = SRegex;
+// ---- verbatim: fn looks_like_date ----
+pub fn looks_like_date(s: &str) -> bool """ + body + """
+// C13: a word is date-like when it starts with a year 1970..2999, optionally followed by a month 01..12 (December included)
+#[kani::proof]
+fn c13_datelike() {
+    let matches: bool = kani::any();
+    let year: i32 = kani::any(); let month: Option<i32> = kani::any();
+    kani::assume(year >= 0 && year <= 9999);
+    if let Some(m) = month { kani::assume(m >= 0 && m <= 99); }
+    unsafe { MATCHES = matches; YEAR = year; MONTH = month; }
+    kani::cover!(matches && month == Some(12));
+    kani::cover!(matches && month.is_none());
+    let expect = matches && year >= 1970 && year < 3000 && match month { Some(m) => m >= 1 && m <= 12, None => true };
+    assert!(looks_like_date("w") == expect, "OBL C13.lexer.datelike");
+}
+#[kani::proof]
+fn canary_datelike_must_fail() {
+    unsafe { MATCHES = false; YEAR = 2024; MONTH = None; }
+    assert!(looks_like_date("w"), "CANARY must fail");
+}
+}
+""")
+    inj.new_file(FRAG_FILE, text)
+    r, d = frag_record('datelike::looks_like_date', 'src/lexer.rs', 'fn looks_like_date (whole body, verbatim, on a shim regex world)', body, body,
+                       ['DATE_ALIKE_REGEX / Captures / Match -> shims: group 1 spells a number 0..9999, group 2 is absent or spells 0..99'], 'the regex match itself (T3)')
+    return dict(functions=[r], dropped=[d], assumptions=['DATE_ALIKE_REGEX captures four digits as group 1 and two digits (or nothing) as group 2'])
+
+
 def unit_rowflow(inj, scratch):
     frag_begin(inj)
     s = src('src/searcher.rs', scratch)
